@@ -66,8 +66,29 @@ def main(tier, replay):
         "implementation fails a probe (known finding) the histories state the parameters again before each set_up, otherwise they do not. "
         "Input classes where 'row differs' is a known finding (keys in known_findings.txt): use_actual_detector_boundaries with 90/180 degrees "
         "symmetries at odd tangential positions; use_actual_detector_boundaries in oblique segments where phi comes out pi off for bin or basic "
-        "bin only; interpolation with x voxel size != y voxel size, 180 degrees symmetry, views beyond 135 degrees. Everything else is strict.", extra)
-    chk.assumptions += ["calculate_proj_matrix_elems_for_one_bin of both matrix classes (ray tracer, interpolation kernel, TOF kernel) is an uninterpreted function in Lean: "
+        "bin only; interpolation with x voxel size != y voxel size, 180 degrees symmetry, views beyond 135 degrees. Everything else is strict. "
+        "Extension 3: (1) re-set-up of ONE object for CONTAINED data: geometries whose projection data are clones with reduced index "
+        "ranges (axial positions removed at the upper / lower / both ends, in all segments or in one segment pair, an odd number too for "
+        "span 1, outer segments removed, tangential positions removed, combinations; span 1 and span 3; 2 (thorough: 12) generated chains "
+        "incl. TOF) of data that share the image grid: ProjDataInfo::operator>= holds between them, == does not. Section F sets one object "
+        "up for one, requests a sample, sets it up for the other (contained, containing, or overlapping: neither contains the other) and "
+        "requests EVERY bin, in the 3 cache modes, ray tracing and (2 pairs) interpolation, also chains of 3-4 set_ups; every row is compared "
+        "exactly with the Lean cache state machine, for which they are different geometries (classes of the library's ==), and by the oracle "
+        "with a new matrix set up for that geometry alone without symmetries and cache; the random histories also run over these groups. "
+        "(2) x voxel size != y voxel size in BOTH directions with the x/y exchanging symmetries potentially active: 12 geometries "
+        "(8/16/24 detectors: 4/8/12 unmashed views, no tilt, no TOF, with and without arc correction, odd/even images, zoom 1 and 2) with "
+        "y - x = +-2, +-0.04, +-0.01, +-0.0025 (beyond the guard's 2e-3 mm), +-0.0015 mm (within) and ratios 1.1, 1/1.1, plus voxels of "
+        "a tenth of the bin size with ratios 1.1, 1.002 either way (sampled): all bins x 32 switch combinations in section A (the x and y "
+        "voxel sizes now go to the model as hex floats and the MODEL evaluates the constructor's guard fabs(dy-dx) > 2.E-3F with float "
+        "rounding: effective switches, basic bins and operations compared exactly) and in the row sweeps of section C; oracle: "
+        "do_symmetry_90degrees_min_phi in force implies |dy-dx| <= 2e-3 mm. Known finding (key unequal-xy-voxel-sizes-within-guard-tolerance:"
+        "xy-exchanging-symmetry): rows derived by an x/y exchanging operation for 0 < |dy-dx| <= 2e-3 mm may differ from the directly "
+        "computed ones by more than the tolerance; such rows are classified by the input (voxel sizes, switch in force, operation "
+        "exchanges x and y), everything else stays strict.", extra)
+    chk.assumptions += ["whether the view offset is zero, the data are TOF and the image origin is unshifted in x/y (the other inputs of the constructor's "
+                        "switch logic) are evaluated by the harness with the constructor's own expressions and told to the model; the x/y voxel-size "
+                        "guard is evaluated by the model",
+                        "calculate_proj_matrix_elems_for_one_bin of both matrix classes (ray tracer, interpolation kernel, TOF kernel) is an uninterpreted function in Lean: "
                         "that the directly computed row equals the symmetry-derived one is checked by the C++ oracle (and, for the LOR geometry, by the theorems over R)",
                         "a geometry of the model is what set_up compares (projection data info, voxel size, origin, index range, library ==); "
                         "that symmetries object and row computation depend on nothing else is part of the model (checked by the oracle and the two set_up probes only)",
